@@ -307,6 +307,40 @@ def check_pyfunc(ctx, spec):
         actors.FAIL[0] = None
 
 
+def shared_builder_chains() -> list:
+    """Serving tables in which 2-3 stateful worker groups are made from the very same builder object (an operator composed
+    repeatedly), every one with its own persisted state - rare in the random campaign (twin x same object x persistent)."""
+    out = []
+    for n in (2, 3):
+        for shape in ('chain', 'fan'):
+            for order in ([*range(1, n + 1)], [*range(n, 0, -1)]):
+                groups = [{'kind': 'fn', 'nin': 0, 'nout': 1, 'hp': {}, 'name': 'g0', 'opaque': 0}]
+                nodes = [{'g': 0, 'mode': 'apply', 'in': []}]
+                for k in range(1, n + 1):
+                    g = {'kind': 'st', 'nin': 1, 'nout': 1, 'hp': {'a': 1}, 'name': 'g1', 'opaque': 1}
+                    if k > 1:
+                        g.update(twin_of=1, same_builder=True)
+                    groups.append(g)
+                    nodes.append({'g': k, 'mode': 'apply', 'in': [[k - 1 if shape == 'chain' else 0, 0]]})
+                ins = [[n, 0]] if shape == 'chain' else [[k, 0] for k in range(1, n + 1)]
+                groups.append({'kind': 'fn', 'nin': len(ins), 'nout': 1, 'hp': {}, 'name': 'gt', 'opaque': 9})
+                nodes.append({'g': n + 1, 'mode': 'apply', 'in': ins})
+                nwire = sum(len(x['in']) for x in nodes)
+                out.append({'groups': groups, 'nodes': nodes, 'tail': n + 1, 'wire': list(range(nwire)),
+                            'assets': {'persistent': order, 'prev': True}, 'fail': 0})
+    return out
+
+
+def enumerate_extra(ctx, shard, nshards):
+    if shard == 0:
+        ctx.campaign = 'pyfunc'
+        for spec in shared_builder_chains():
+            check_pyfunc(ctx, spec)
+        ctx.campaign = 'dask'
+        for spec in shared_builder_chains():
+            check_dask(ctx, spec)
+
+
 def campaigns(ctx):
     return [
         Campaign('dask', graphgen.graphs(max_nodes=9), check_dask, 250, 2500),
